@@ -1,14 +1,13 @@
 PROP = dict(
-    unclaimed=True,
     module="M3d.Props.C18",
-    corr=dict(quick=120, thorough=500),
+    corr=dict(quick=400, thorough=1200),
     gen=[],
     corr_theorems=(
         "grow: the charts of M3d.Param.planeGraphs (the state machine charts_partition / boundary_refcount_invariant / "
         "growth_keeps_disc_partial / growth_keeps_boundary_simple are about) must equal the real nextMeshPlaneGraphs' charts; "
         "charts: disc_decider_sound (isDisc on every real chart) + partition; bseq: boundarySeq model; "
         "system: floaterRow/floaterSystem (floater_row_convex_comb) in exact arithmetic; param/atlas: uvValid_sound "
-        "(+ weighted-mean residual, validation); pack: buildQT/joined/toBounds (quadtree_cells_disjoint_in_unit, "
+        "(+ weighted-mean residual, validation); circle: runSums/arcParams (arc_params_increasing; libm, near); pack: buildQT/joined/toBounds (quadtree_cells_disjoint_in_unit, "
         "to_bounds_affine) in exact arithmetic; mapfn: bary2/atBary3 (mapfn_barycentric_roundtrip)"
     ),
     rule=(
